@@ -107,11 +107,34 @@ def formatter_container_fields(res, cls):
                             continue
                         if isinstance(e, ast.Call) and res.canon(e.func) == FORMATTER:
                             continue
+                        if isinstance(e, ast.Name) and _constant_loop_target(fn, c, e.id):
+                            continue
                         ok = False
                 if ok:
                     out.add(n.targets[0].attr)
     cls._formatter_fields = out
     return out
+
+
+def _constant_loop_target(fn, node, name):
+    """*name* is, at *node*, the target of an enclosing `for ... in <table>` whose table is a tuple/list display (in place or a
+    local bound once to one) with a constant at that target's position in every row: the name holds a constant."""
+    for loop in A.ancestors(node):
+        if not isinstance(loop, ast.For) or name not in A.target_names(loop.target):
+            continue
+        table = loop.iter
+        if isinstance(table, ast.Name):
+            table = A.single_def(fn, table.id)
+        if not isinstance(table, (ast.Tuple, ast.List)) or not table.elts:
+            return False
+        if isinstance(loop.target, ast.Name):
+            return all(isinstance(r, ast.Constant) for r in table.elts)
+        if isinstance(loop.target, (ast.Tuple, ast.List)):
+            idx = [i for i, t in enumerate(loop.target.elts) if isinstance(t, ast.Name) and t.id == name]
+            return bool(idx) and all(isinstance(r, (ast.Tuple, ast.List)) and len(r.elts) == len(loop.target.elts)
+                                     and isinstance(r.elts[idx[0]], ast.Constant) for r in table.elts)
+        return False
+    return False
 
 
 def classes_with(ctx, name):
